@@ -220,7 +220,7 @@ func run(c *simrun.Ctx) *simrun.Violation {
 			h.PermuteInserts = true
 			m, err = h.BuildStruct(av, mt)
 		case "unmarshal-shuffled":
-			enc := (&simval.EncodeOpts{T: t, Shuffle: true, Redundant: t.Chance("redundant", 1, 3), DupMapKeys: t.Chance("dupkeys", 1, 3)}).Encode(av)
+			enc := (&simval.EncodeOpts{T: t, Shuffle: true, Redundant: t.Chance("redundant", 1, 3), DupMapKeys: t.Chance("dupkeys", 1, 3), NonCanonical: t.Chance("noncanonical", 1, 3)}).Encode(av)
 			mm := mt.New().Interface()
 			err = safeUnmarshal(enc, mm)
 			decodeInputs = append(decodeInputs, enc)
